@@ -6,7 +6,7 @@ from hypothesis import strategies as st
 from ECAgent.Core import Agent, Model
 from ECAgent.Environments import DiscreteWorld, GridWorld, LineWorld, SpaceWorld, PositionComponent
 from vf.engine import Violation, InvalidCase
-from vf.fixtures import check, wone_of
+from vf.fixtures import check, with_done, wone_of
 
 PROPERTY = "C12"
 BUDGET = {"quick": 5000, "thorough": 15000}
@@ -99,6 +99,8 @@ def hairs(kind, pos, hair, ext):
 def run_case(case):
     model, env, ext, wrap = build(case)
     kind = case["kind"]
+    if case.get("done") == 0:       # the model was marked complete before anybody was placed / after everybody was placed
+        model.complete()
     agents = []          # (agent, joined order)
     for i, a in enumerate(case["agents"][:300]):
         pos = [clampin(kind, int(v), ext[ax]) for ax, v in enumerate(_p3(a["pos"]))]
@@ -110,6 +112,9 @@ def run_case(case):
         agents.append(ag)
     resident = list(agents)
     labels = set()
+    if case.get("done") is not None:
+        model.complete()
+        labels.add("model-completed-then-used")
     world2 = None
     if len(case["agents"]) % 2:
         # a second world of the same kind, created afterwards and alive throughout, whose agents carry the SAME ids and all stand
@@ -412,7 +417,7 @@ def strategy(tier):
             while len(agents) < target:
                 agents.append({"pos": [agent_coord(ax) for ax in range(3)]})
         return {"kind": kind, "ext": ext, "wrap": wrap, "agents": agents, "moves": moves, "script": script}
-    return case()
+    return with_done(case())
 
 
 EXHAUSTIVE_DOMAIN = ("line worlds of width 1..4 (wrap on/off) and continuous 1-D worlds of extent 1 (eighths): every placement of one "
